@@ -140,11 +140,32 @@ def c18_2(ctx):
         else:
             out.append(ctx.err("compactfilter:hashed_items", "range expression `%s` not recognised" % ast.unparse(fexp), c, mod))
     mod, fn = rl.get(ctx, "compactfilter:hash_to_range")
-    r = [ast.unparse(s.value) for s in ast.walk(fn) if isinstance(s, ast.Return)]
-    if r == ["_siphash(key, value) * f >> 64"]:
+    rets = [(n_, expand(fn, n_.id, n_.ast.value, depth=4)) for n_ in cfg_of(fn).returns() if n_.ast is not None and n_.ast.value is not None]
+    r = [ast.unparse(e_) for _, e_ in rets]
+    fpar = param_names(fn)[2] if len(param_names(fn)) > 2 else "f"
+
+    def is_hash(e_):
+        return isinstance(e_, ast.Call) and call_name(e_) in ("_siphash", "siphash", "hash")
+
+    verdict = None
+    if len(rets) == 1:
+        e_ = rets[0][1]
+        if isinstance(e_, ast.BinOp) and isinstance(e_.op, ast.RShift) and isinstance(e_.left, ast.BinOp) and isinstance(e_.left.op, ast.Mult):
+            a_, b_ = e_.left.left, e_.left.right
+            sh = Folder(ctx.repo, mod.name).fold(e_.right)
+            plain = (is_hash(a_) and ast.unparse(b_) == fpar) or (is_hash(b_) and ast.unparse(a_) == fpar)
+            if plain and sh == 64:
+                verdict = "ok"
+            elif plain and isinstance(sh, int):
+                verdict = "the product is shifted right by %d bits (BIP158: 64)" % sh
+            elif isinstance(sh, int) and any(isinstance(x, ast.BinOp) and isinstance(x.op, (ast.RShift, ast.BitAnd)) for x in (a_, b_)):
+                verdict = "the hash (or F) is truncated before the multiplication, so low-order carries are lost: some elements land one below (hash · F) >> 64"
+    if verdict == "ok":
         out.append(ctx.ok("compactfilter:hash_to_range", "(siphash(key, item) · F) >> 64", fn, mod, key="map"))
+    elif verdict:
+        out.append(ctx.bad("compactfilter:hash_to_range", "range mapping is %s: %s" % (r, verdict), fn, mod, key="map"))
     else:
-        out.append(ctx.bad("compactfilter:hash_to_range", "range mapping is %s, BIP158: (hash · F) >> 64" % r, fn, mod, key="map"))
+        out.append(ctx.err("compactfilter:hash_to_range", "range mapping %s not recognised as (hash · F) >> 64" % r, fn, mod))
     # key = first 16 bytes of the block hash in internal order
     mod, fn = rl.get(ctx, "compactfilter:CFilterMessage.__init__")
     if "CompactFilter.parse(block_hash[::-1][:16], filter_bytes)" in ast.unparse(fn):
@@ -230,7 +251,7 @@ def c18_3(ctx):
     if "d ^= m" in src and "u ^ m" in src:
         out.append(ctx.ok(spec, "v3 ^= m before and v0 ^= m after the two rounds", fn, mod, key="msg-xor"))
     else:
-        out.append(ctx.bad(spec, "message word is not xored into v3 before / v0 after the rounds", fn, mod, key="msg-xor"))
+        out.append(ctx.err(spec, "message-word xor idiom (v3 ^= m before, v0 ^= m after the rounds) not recognised", fn, mod))
     return out
 
 
@@ -305,7 +326,7 @@ def c18_4(ctx):
     if "h1 ^= length" in src and "h1 * 5 + 3864292196" in src:
         out.append(ctx.ok(spec, "h1 = h1·5 + 0xe6546b64 per block; h1 ^= len before fmix", fn, mod, key="body"))
     else:
-        out.append(ctx.bad(spec, "block mix / length xor differ from MurmurHash3", fn, mod, key="body"))
+        out.append(ctx.err(spec, "block mix / length xor idiom of MurmurHash3 not recognised", fn, mod))
     return out
 
 
